@@ -38,7 +38,7 @@ LANGS = ['darr', 'idl', 'julia_ver0', 'julia_ver1', 'mathematica', 'matlab', 'ma
 FOREIGN = ['idl', 'julia_ver0', 'julia_ver1', 'mathematica', 'matlab', 'maple', 'R', 'scilab']
 SHAPES = [(5,), (1,), (2, 3), (3, 1), (1, 4), (2, 3, 4), (4, 1, 2), (2, 3, 4, 5), (1, 2, 1, 3)]
 PATHMODES = ['rel', 'base', 'abs']
-MUST_HIT = ['lang:' + l for l in LANGS] + ['path:' + p for p in PATHMODES] + ['offer-table', 'withheld', 'empty-array', 'rank:1', 'rank:2',
+MUST_HIT = ['after-history-on-live-handle'] + ['lang:' + l for l in LANGS] + ['path:' + p for p in PATHMODES] + ['offer-table', 'withheld', 'empty-array', 'rank:1', 'rank:2',
                                                                               'rank:3', 'rank:4', 'complex', 'float16', 'bigendian']
 COLUMN = {'IDL': ['idl'], 'Julia': ['julia_ver0', 'julia_ver1'], 'Maple': ['maple'], 'Mathematica': ['mathematica'], 'Matlab': ['matlab'],
           'Numpy': ['numpy', 'numpymemmap'], 'Python': ['python'], 'R': ['R'], 'Scilab': ['scilab']}
@@ -217,9 +217,20 @@ def _exec_prog(ctx, spec):
     with ctx.scratch() as d:
         root, apath, other = layout(d)
         ref = gens.build_array(gens.mkdtype(t, bo), shape, {'m': 'dist', 's': spec.get('seed', 1)})
-        a = darr.asarray(apath, ref)
+        if spec.get('churn') and shape[0] >= 2:
+            # reach the same state through a history on one live handle (grow, ask for code, shrink, grow differently)
+            out.cls('after-history-on-live-handle')
+            a = darr.asarray(apath, ref[:1], accessmode='r+')
+            a.append(ref[:shape[0] - 1])
+            a.readcode(lang)
+            darr.truncate_array(a, 1)
+            a.iterappend([ref[1:2], ref[2:]])
+        else:
+            a = darr.asarray(apath, ref)
         basepath = 'data/x.darr'
-        code = a.readcode(lang, abspath=(pm == 'abs'), basepath=(basepath if pm == 'base' else None))
+        import pathlib
+        bparg = {0: basepath, 1: pathlib.Path(basepath), 2: basepath + '/'}[spec.get('seed', 1) % 3]
+        code = a.readcode(lang, abspath=(pm == 'abs'), basepath=(bparg if pm == 'base' else None))
         if code is None:
             out.nontrivial = False
             return out
@@ -302,6 +313,8 @@ def prog_specs(seeds=(1,)):
     for seed in seeds:
         for t, bo, shape, lang, pm in itertools.product(NUMTYPES, '<>', SHAPES, LANGS, PATHMODES):
             yield {'f': 'prog', 't': t, 'bo': bo, 'shape': list(shape), 'lang': lang, 'pm': pm, 'seed': seed}
+    for t, shape, lang in itertools.product(NUMTYPES, [(4,), (3, 2)], LANGS):
+        yield {'f': 'prog', 't': t, 'bo': '>', 'shape': list(shape), 'lang': lang, 'pm': 'rel', 'seed': 1, 'churn': True}
     for t, shape, lang in itertools.product(NUMTYPES, [(0,), (0, 3)], LANGS):
         yield {'f': 'prog', 't': t, 'bo': '<', 'shape': list(shape), 'lang': lang, 'pm': 'rel', 'seed': 1}
 
@@ -316,7 +329,7 @@ def st_prog(draw):
     rank = draw(st.integers(1, 4))
     return {'f': 'prog', 't': draw(st.sampled_from(NUMTYPES)), 'bo': draw(st.sampled_from('<>')),
             'shape': [draw(st.integers(1, 6)) for _ in range(rank)], 'lang': draw(st.sampled_from(LANGS)),
-            'pm': draw(st.sampled_from(PATHMODES)), 'seed': draw(st.integers(0, 2 ** 20))}
+            'pm': draw(st.sampled_from(PATHMODES)), 'seed': draw(st.integers(0, 2 ** 20)), 'churn': draw(st.booleans())}
 
 
 def task_enum(ctx, col, shard, seeds):
